@@ -41,6 +41,9 @@ var flagSets = []uint32{0, script.VER_P2SH, script.VER_P2SH | script.VER_DERSIG 
 	consensusFlags, script.STANDARD_VERIFY_FLAGS}
 
 func checkLib(c libCase) error {
+	if wedged.Load() {
+		return nil
+	}
 	data, _ := hex.DecodeString(c.Data)
 	var ms runtime.MemStats
 	runtime.ReadMemStats(&ms)
